@@ -25,6 +25,23 @@ var (
 	sink40  *gocvss40.CVSS40
 )
 
+// KeepAlive reads every sink so that no tool or optimiser can consider the measured results unused.
+func KeepAlive() int {
+	n := len(sinkStr)
+	if sinkErr != nil {
+		n++
+	}
+	if sinkF != 0 {
+		n++
+	}
+	for _, p := range []bool{sink20 != nil, sink30 != nil, sink31 != nil, sink40 != nil} {
+		if p {
+			n++
+		}
+	}
+	return n
+}
+
 // AllocOp is one measurable operation with its budget from C17.
 type AllocOp struct {
 	Name   string
